@@ -103,6 +103,39 @@ theorem sync_converges (cwd : String) (d : List Repo) (inv : Inv) (hw : WF d) (h
     rw [h1, h2]
     simp [h3, h4]
 
+/-- **C34, the command as a whole**: if `sync -f` on some roots succeeds, then discovery succeeded with exactly the
+    repositories found under the roots (each once, no two with the same name or source), and the final index holds
+    nothing but them, each present and up to date at the shard path its name determines. -/
+theorem sync_cmd_converges (cwd : String) (roots : List (String × Tree)) (mk : String × String → Repo) (inv : Inv)
+    (hmk : ∀ p, (mk p).name = p.1 ∧ (mk p).source = p.2)
+    (hw : ∀ specs, discoverRepositories roots = .ok specs → WF (specs.map mk))
+    (hd : (syncCmd true cwd roots mk inv).discErr = none)
+    (hok : (syncCmd true cwd roots mk inv).run.err = false) :
+    ∃ specs, discoverRepositories roots = .ok specs ∧ specs.Perm (allFound roots) ∧ Distinct specs ∧
+      nothingElse cwd (specs.map mk) (syncCmd true cwd roots mk inv).run.inv = true ∧
+      eachPresent cwd (specs.map mk) (syncCmd true cwd roots mk inv).run.inv = true := by
+  unfold syncCmd at hd hok ⊢
+  rcases hdisc : discoverRepositories roots with e | specs
+  · rw [hdisc] at hd; simp at hd
+  ·
+    rw [hdisc] at hok
+    simp only at hok ⊢
+    obtain ⟨hiff, hperm⟩ := discover_ok_iff roots
+    have hp := hperm specs hdisc
+    have hdist : Distinct (allFound roots) := (hiff.mp ⟨specs, hdisc⟩).2
+    have hds : Distinct specs := by
+      unfold Distinct at hdist ⊢
+      exact ⟨(hp.map _).nodup_iff.mpr hdist.1, (hp.map _).nodup_iff.mpr hdist.2⟩
+    have hn : NamesDistinct (specs.map mk) := by
+      intro a ha b hb hab
+      rw [List.mem_map] at ha hb
+      obtain ⟨p, hpm, rfl⟩ := ha
+      obtain ⟨q, hqm, rfl⟩ := hb
+      rw [(hmk p).1, (hmk q).1] at hab
+      rw [inj_of_nodup_map _ _ hds.1 p hpm q hqm hab]
+    obtain ⟨a, b⟩ := sync_converges cwd (specs.map mk) inv (hw specs hdisc) hn hok
+    exact ⟨specs, rfl, hp, hds, a, b⟩
+
 /-- **C34, a second run has nothing to do**: after a successful `sync -f`, running `sync -f` again on the resulting
     index removes nothing, (re)indexes nothing and leaves the inventory as it is. -/
 theorem sync_second_run_noop (cwd : String) (d : List Repo) (inv : Inv) (hw : WF d) (hn : NamesDistinct d)
